@@ -4,6 +4,7 @@ package main
 
 import (
 	"context"
+	"go/types"
 	"fmt"
 	"os"
 	"os/exec"
@@ -162,6 +163,10 @@ func solveVariant(vc *VC, o *Obligation, workDir string, idx int, secs int, seed
 			} else {
 				o.Status = "failed"
 				o.Model = parseValues(a.out)
+				cancel()
+				if m := shrinkModel(vc, o, base, secs, extra); m != nil {
+					o.Model = m
+				}
 			}
 			decided = true
 			cancel()
@@ -288,4 +293,42 @@ func splitPair(p string) (string, string) {
 		}
 	}
 	return p, ""
+}
+
+// shrinkModel asks for a small counterexample (short slices and strings) so that it can be replayed.
+func shrinkModel(vc *VC, o *Obligation, base string, secs int, extra []string) map[string]string {
+	var bounds []string
+	for _, in := range o.Inputs {
+		switch in.Term.Sort {
+		case SSlice:
+			bounds = append(bounds, fmt.Sprintf("(<= (slen %s) 4)", in.Term.S))
+			if sl, isSl := in.Type.Underlying().(*types.Slice); isSl && vc.ss.SortOf(sl.Elem()) == SString {
+				for _, t := range vc.inputTerms(in)[1:] {
+					bounds = append(bounds, fmt.Sprintf("(<= (str.len %s) 12)", t))
+				}
+			}
+		case SString:
+			bounds = append(bounds, fmt.Sprintf("(<= (str.len %s) 16)", in.Term.S))
+		case SInt:
+			bounds = append(bounds, fmt.Sprintf("(and (<= (- 8) %s) (<= %s 64))", in.Term.S, in.Term.S))
+		}
+	}
+	if len(bounds) == 0 {
+		return nil
+	}
+	// only string-element bounds for []string inputs
+	var ok []string
+	for _, b := range bounds {
+		ok = append(ok, b)
+	}
+	script := vc.ScriptWith(o, "z3", append(append([]string{}, extra...), ok...))
+	f := base + ".shrink.smt2"
+	os.WriteFile(f, []byte(script), 0o644)
+	ctx, cancel := context.WithTimeout(context.Background(), time.Duration(secs+2)*time.Second)
+	defer cancel()
+	out, _ := exec.CommandContext(ctx, "z3-new", fmt.Sprintf("-T:%d", secs), f).CombinedOutput()
+	if strings.HasPrefix(strings.TrimSpace(string(out)), "sat") {
+		return parseValues(string(out))
+	}
+	return nil
 }
